@@ -360,4 +360,20 @@ theorem accept_PickColumn (C : Ctx) (t : Text) :
     cases h : enumLookup C.enums "PickEnum" (pyCapitalize t) <;>
     simp [Expected.PickColumn, h, ht, hn, str_beq]
 
+/-- `EntrezGeneId`: zero, however spelled, is the null value -/
+theorem accept_EntrezGeneId (C : Ctx) (t : Text) :
+    Expected.EntrezGeneId.accept C false t = namedBuild ⟨C.enums, C.H⟩ "EntrezGeneId" t := by
+  rw [accept_eq_custom _ _ _ rfl]
+  by_cases ht : t = ['0']
+  · subst ht
+    have : pyInt ['0'] = some 0 := by decide
+    simp [Expected.EntrezGeneId, str_beq, this]
+  · cases h : pyInt t with
+    | none => simp [Expected.EntrezGeneId, str_beq, ht, h, zeroIsNull]
+    | some i =>
+      by_cases h0 : i = 0
+      · subst h0; simp [Expected.EntrezGeneId, str_beq, ht, h, zeroIsNull, Atom.pyEq]
+      · simp [Expected.EntrezGeneId, str_beq, ht, h, zeroIsNull, Atom.pyEq, h0]
+        by_cases h1 : (0:Int) ≤ i <;> simp [h1] <;> omega
+
 end Accept
